@@ -149,35 +149,221 @@ theorem equalsShallow_trans_hdr {D : List Str} (hD : dateTrans D = true) {a b c 
     simp only [Bool.and_eq_true, beq_iff_eq] at h1 h2 ⊢
     exact ⟨h2.1, uidEquals_trans _ _ _ h1.2 h2.2⟩
 
-/-! ## laws of `covers` under the guard -/
+/-! ## the wide guard: RESI / EVEN nodes that have a DATE child are admitted
 
-theorem covers_refl {D : List Str} (x : Node) (h : plainOK D x = true) : covers x x = true := by
-  induction x using Node.induct with
+  `ResidenceNode.Equals` / `EventNode.Equals` go by the DATE children when the receiver has one
+  ("some pair of dates is Equal"), and by deep equality of the PLAC children / of all children
+  only when neither side has a DATE child.  Merging keeps a representative of every DATE child,
+  so a dated RESI / EVEN node stays Equal to everything it was Equal to (given transitivity of the
+  date relation); a dateless one need not (`nothing_lost_counterexample_resi`). -/
+
+/-- guard of one node: a DATE value is in `D`; a RESI / EVEN node has at least one DATE child -/
+def nodeOK (D : List Str) (n : Node) : Bool :=
+  (n.rule != .date || D.contains n.value) &&
+  ((n.rule != .resi && n.rule != .even) || !n.dates.isEmpty)
+
+mutual
+/-- `nodeOK` for every node of the tree -/
+def wideOK (D : List Str) : Node → Bool
+  | .mk t v p ks => nodeOK D (.mk t v p ks) && wideOKList D ks
+def wideOKList (D : List Str) : List Node → Bool
+  | [] => true
+  | k :: ks => wideOK D k && wideOKList D ks
+end
+
+theorem wideOKList_iff (D : List Str) (ks : List Node) :
+    wideOKList D ks = true ↔ ∀ k ∈ ks, wideOK D k = true := by
+  induction ks with
+  | nil => simp [wideOKList]
+  | cons k ks ih => simp [wideOKList, ih]
+
+theorem wideOK_iff (D : List Str) (n : Node) :
+    wideOK D n = true ↔ nodeOK D n = true ∧ ∀ k ∈ n.kids, wideOK D k = true := by
+  cases n with
+  | mk t v p ks => simp only [wideOK, Bool.and_eq_true, wideOKList_iff, Node.kids]
+
+theorem nodeOK_of_hdrOK {D : List Str} {n : Node} (h : hdrOK D n = true) : nodeOK D n = true := by
+  simp only [hdrOK, Bool.and_eq_true] at h
+  simp only [nodeOK, Bool.and_eq_true]
+  refine ⟨h.2, ?_⟩
+  simp only [Bool.or_eq_true, Bool.and_eq_true]
+  exact Or.inl ⟨h.1.1, h.1.2⟩
+
+/-- the old guard implies the wide one -/
+theorem plainOK_wide {D : List Str} (n : Node) (h : plainOK D n = true) : wideOK D n = true := by
+  induction n using Node.induct with
   | h t v p ks ih =>
     rw [plainOK_iff] at h
+    rw [wideOK_iff]
+    exact ⟨nodeOK_of_hdrOK h.1, fun k hk => ih k hk (h.2 k hk)⟩
+
+theorem hdrOK_of_nodeOK {D : List Str} {n : Node} (h : nodeOK D n = true) (h1 : n.rule ≠ .resi)
+    (h2 : n.rule ≠ .even) : hdrOK D n = true := by
+  simp only [nodeOK, Bool.and_eq_true] at h
+  simp only [hdrOK, Bool.and_eq_true, bne_iff_ne, ne_eq]
+  exact ⟨⟨h1, h2⟩, h.1⟩
+
+theorem nodeOK_dated {D : List Str} {n : Node} (h : nodeOK D n = true)
+    (hr : n.rule = .resi ∨ n.rule = .even) : n.dates ≠ [] := by
+  simp only [nodeOK, Bool.and_eq_true, Bool.or_eq_true, bne_iff_ne, ne_eq, Bool.not_eq_true',
+    List.isEmpty_eq_false_iff] at h
+  rcases h.2 with h' | h'
+  · rcases hr with hr | hr
+    · exact absurd hr h'.1
+    · exact absurd hr h'.2
+  · exact h'
+
+theorem nodeOK_value {D : List Str} {n : Node} (h : nodeOK D n = true) (hd : isDate n = true) :
+    n.value ∈ D := by
+  have hr := rule_of_isDate hd
+  simp only [nodeOK, Bool.and_eq_true, Bool.or_eq_true, bne_iff_ne, ne_eq, hr, not_true_eq_false,
+    false_or, List.contains_eq_mem, decide_eq_true_eq] at h
+  exact h.1
+
+/-- a node Equal to a DATE node is a DATE node with an Equal value -/
+theorem date_of_equals {k d : Node} (h : equalsShallow k d = true) (hd : isDate d = true) :
+    isDate k = true ∧ dateValueEquals k.value d.value = true := by
+  have hr : k.rule = .date := by rw [← equalsShallow_rule h]; exact rule_of_isDate hd
+  refine ⟨isDate_of_rule hr, ?_⟩
+  unfold equalsShallow at h
+  rw [hr] at h
+  simp only [Bool.and_eq_true] at h
+  exact h.2
+
+/-- what Equals of a dated RESI / EVEN receiver means, and how it is established -/
+theorem multi_dates {a b : Node} (hr : a.rule = .resi ∨ a.rule = .even) (hd : a.dates ≠ [])
+    (h : equalsShallow a b = true) : b.rule = a.rule ∧ datesMatch a.dates b.dates = true := by
+  refine ⟨equalsShallow_rule h, ?_⟩
+  have hlen : a.dates.length ≠ 0 := fun h0 => hd (List.eq_nil_of_length_eq_zero h0)
+  unfold equalsShallow at h
+  rcases hr with hr | hr <;> rw [hr] at h <;>
+    simp only [Bool.and_eq_true, Bool.or_eq_true, beq_iff_eq] at h
+  · rcases h.2 with h' | h'
+    · exact h'
+    · exact absurd (by omega : a.dates.length = 0) hlen
+  · rcases h.2 with h' | h'
+    · exact h'
+    · exact absurd h'.1.1.1 hlen
+
+theorem multi_of_dates {a b : Node} (hr : a.rule = .resi ∨ a.rule = .even) (hb : b.rule = a.rule)
+    (h : datesMatch a.dates b.dates = true) : equalsShallow a b = true := by
+  unfold equalsShallow
+  rcases hr with hr | hr <;> rw [hr] <;> rw [hr] at hb <;>
+    simp only [Bool.and_eq_true, Bool.or_eq_true, beq_iff_eq]
+  · exact ⟨hb, Or.inl h⟩
+  · exact ⟨hb, Or.inl h⟩
+
+/-- a DATE child of `e`, represented among the children of `m`, gives `m` a DATE child with an
+    Equal value -/
+theorem date_kid_cover {e m d : Node} (hd : d ∈ e.dates)
+    (hk : ∀ k ∈ e.kids, ∃ k' ∈ m.kids, covers k k' = true) :
+    ∃ d' ∈ m.dates, dateValueEquals d'.value d.value = true := by
+  obtain ⟨hdk, hdd⟩ := mem_dates hd
+  obtain ⟨k', hk', hc⟩ := hk d hdk
+  have := date_of_equals ((covers_iff _ _).mp hc).1 hdd
+  exact ⟨k', List.mem_filter.mpr ⟨hk', this.1⟩, this.2⟩
+
+/-- REFLEXIVITY up to merging: a node with the header of `e` whose children represent the
+    children of `e` is Equal to `e` -/
+theorem refl_cover {D : List Str} {m e : Node} (hh : sameHdr m e) (he : nodeOK D e = true)
+    (hk : ∀ k ∈ e.kids, ∃ k' ∈ m.kids, covers k k' = true) : equalsShallow m e = true := by
+  by_cases hr : e.rule = .resi ∨ e.rule = .even
+  · have hmr : m.rule = .resi ∨ m.rule = .even := by rw [hh.rule]; exact hr
+    obtain ⟨d, ds, hds⟩ := List.exists_cons_of_ne_nil (nodeOK_dated he hr)
+    have hd : d ∈ e.dates := by rw [hds]; simp
+    obtain ⟨d', hd', hv⟩ := date_kid_cover hd hk
+    exact multi_of_dates hmr hh.rule.symm ((datesMatch_iff _ _).mpr ⟨d', hd', d, hd, hv⟩)
+  · have h1 : e.rule ≠ .resi := fun h => hr (Or.inl h)
+    have h2 : e.rule ≠ .even := fun h => hr (Or.inr h)
+    rw [equalsShallow_congr hh ⟨rfl, rfl, rfl⟩ (by rw [hh.rule]; exact h1) (by rw [hh.rule]; exact h2)]
+    exact equalsShallow_refl_hdr (hdrOK_of_nodeOK he h1 h2)
+
+/-- TRANSITIVITY up to merging: if `m` is Equal to `e`, its children represent the children of
+    `e`, and `e` is Equal to `x`, then `m` is Equal to `x`.  (For RESI / EVEN this is not
+    transitivity of Equals — which fails for nodes with several dates — but uses the
+    representation of the DATE children.) -/
+theorem trans_cover {D : List Str} (hD : dateTrans D = true) {m e x : Node}
+    (hm : wideOK D m = true) (he : wideOK D e = true) (hx : wideOK D x = true)
+    (h1 : equalsShallow m e = true) (h2 : equalsShallow e x = true)
+    (hk : ∀ k ∈ e.kids, ∃ k' ∈ m.kids, covers k k' = true) : equalsShallow m x = true := by
+  have hm' := (wideOK_iff D m).mp hm
+  have he' := (wideOK_iff D e).mp he
+  have hx' := (wideOK_iff D x).mp hx
+  have hr1 := equalsShallow_rule h1
+  have hr2 := equalsShallow_rule h2
+  by_cases hr : e.rule = .resi ∨ e.rule = .even
+  · have hmr : m.rule = .resi ∨ m.rule = .even := by rw [← hr1]; exact hr
+    obtain ⟨_, hdm⟩ := multi_dates hr (nodeOK_dated he'.1 hr) h2
+    obtain ⟨d, hd, dx, hdx, hv⟩ := (datesMatch_iff _ _).mp hdm
+    obtain ⟨d', hd', hv'⟩ := date_kid_cover hd hk
+    have hD1 : d'.value ∈ D := nodeOK_value ((wideOK_iff D _).mp (hm'.2 d' (mem_dates hd').1)).1 (mem_dates hd').2
+    have hD2 : d.value ∈ D := nodeOK_value ((wideOK_iff D _).mp (he'.2 d (mem_dates hd).1)).1 (mem_dates hd).2
+    have hD3 : dx.value ∈ D := nodeOK_value ((wideOK_iff D _).mp (hx'.2 dx (mem_dates hdx).1)).1 (mem_dates hdx).2
+    have htr : dateValueEquals d'.value dx.value = true := by
+      simp only [dateTrans, List.all_eq_true, Bool.or_eq_true, Bool.not_eq_true',
+        Bool.and_eq_false_iff] at hD
+      rcases hD _ hD1 _ hD2 _ hD3 with (h | h) | h
+      · rw [hv'] at h; cases h
+      · rw [hv] at h; cases h
+      · exact h
+    exact multi_of_dates hmr (hr2.trans hr1) ((datesMatch_iff _ _).mpr ⟨d', hd', dx, hdx, htr⟩)
+  · have e1 : e.rule ≠ .resi := fun h => hr (Or.inl h)
+    have e2 : e.rule ≠ .even := fun h => hr (Or.inr h)
+    exact equalsShallow_trans_hdr hD
+      (hdrOK_of_nodeOK hm'.1 (by rw [← hr1]; exact e1) (by rw [← hr1]; exact e2))
+      (hdrOK_of_nodeOK he'.1 e1 e2)
+      (hdrOK_of_nodeOK hx'.1 (by rw [hr2]; exact e1) (by rw [hr2]; exact e2)) h1 h2
+
+/-- the guard of one node survives replacing its children by children that represent them -/
+theorem nodeOK_cover {D : List Str} {m e : Node} (hh : sameHdr m e) (he : nodeOK D e = true)
+    (hk : ∀ k ∈ e.kids, ∃ k' ∈ m.kids, covers k k' = true) : nodeOK D m = true := by
+  by_cases hr : e.rule = .resi ∨ e.rule = .even
+  · obtain ⟨d, ds, hds⟩ := List.exists_cons_of_ne_nil (nodeOK_dated he hr)
+    obtain ⟨d', hd', _⟩ := date_kid_cover (e := e) (d := d) (by rw [hds]; simp) hk
+    have hne : m.dates ≠ [] := List.ne_nil_of_mem hd'
+    simp only [nodeOK, Bool.and_eq_true, Bool.or_eq_true, bne_iff_ne, ne_eq, Bool.not_eq_true',
+      List.isEmpty_eq_false_iff] at he ⊢
+    refine ⟨?_, Or.inr hne⟩
+    rw [hh.rule, hh.2.1]; exact he.1
+  · have h1 : e.rule ≠ .resi := fun h => hr (Or.inl h)
+    have h2 : e.rule ≠ .even := fun h => hr (Or.inr h)
+    apply nodeOK_of_hdrOK
+    rw [hdrOK_congr hh]
+    exact hdrOK_of_nodeOK he h1 h2
+
+/-! ## laws of `covers` under the guard -/
+
+theorem covers_refl {D : List Str} (x : Node) (h : wideOK D x = true) : covers x x = true := by
+  induction x using Node.induct with
+  | h t v p ks ih =>
+    rw [wideOK_iff] at h
+    have hk : ∀ k ∈ (Node.mk t v p ks).kids, ∃ k' ∈ (Node.mk t v p ks).kids, covers k k' = true :=
+      fun k hk => ⟨k, hk, ih k hk (h.2 k hk)⟩
     rw [covers_iff]
-    exact ⟨equalsShallow_refl_hdr h.1, fun k hk => ⟨k, hk, ih k hk (h.2 k hk)⟩⟩
+    exact ⟨refl_cover ⟨rfl, rfl, rfl⟩ h.1 hk, hk⟩
 
 theorem covers_trans {D : List Str} (hD : dateTrans D = true) (x : Node) :
-    ∀ e m : Node, plainOK D x = true → plainOK D e = true → plainOK D m = true →
+    ∀ e m : Node, wideOK D x = true → wideOK D e = true → wideOK D m = true →
       covers x e = true → covers e m = true → covers x m = true := by
   induction x using Node.induct with
   | h t v p ks ih =>
     intro e m hx he hm h1 h2
-    rw [plainOK_iff] at hx he hm
+    have hx' := (wideOK_iff D _).mp hx
+    have he' := (wideOK_iff D _).mp he
+    have hm' := (wideOK_iff D _).mp hm
     rw [covers_iff] at h1 h2 ⊢
-    refine ⟨equalsShallow_trans_hdr hD hm.1 he.1 hx.1 h2.1 h1.1, ?_⟩
+    refine ⟨trans_cover hD hm he hx h2.1 h1.1 h2.2, ?_⟩
     intro k hk
     obtain ⟨k', hk', hc1⟩ := h1.2 k hk
     obtain ⟨k'', hk'', hc2⟩ := h2.2 k' hk'
-    exact ⟨k'', hk'', ih k hk k' k'' (hx.2 k hk) (he.2 k' hk') (hm.2 k'' hk'') hc1 hc2⟩
+    exact ⟨k'', hk'', ih k hk k' k'' (hx'.2 k hk) (he'.2 k' hk') (hm'.2 k'' hk'') hc1 hc2⟩
 
 /-! ## MergeNodeSlices loses nothing -/
 
 /-- contract of a merge function: the merged node represents both arguments -/
 def CovFn (D : List Str) (f : MergeFn) : Prop :=
-  ∀ a b s m s', f a b s = (some m, s') → plainOK D a.erase = true → plainOK D b.erase = true →
-    plainOK D m.erase = true ∧ covers a.erase m.erase = true ∧ covers b.erase m.erase = true
+  ∀ a b s m s', f a b s = (some m, s') → wideOK D a.erase = true → wideOK D b.erase = true →
+    wideOK D m.erase = true ∧ covers a.erase m.erase = true ∧ covers b.erase m.erase = true
 
 theorem copyLeft_erase (fl : MergeFlags) (l : List (Nat × INode)) (st : MSt) :
     (copyLeft fl l st).1.map (·.node.erase) = l.map (·.2.erase) := by
@@ -187,14 +373,14 @@ theorem copyLeft_erase (fl : MergeFlags) (l : List (Nat × INode)) (st : MSt) :
 
 theorem mergeLoop_covers {D : List Str} (hD : dateTrans D = true) (fl : MergeFlags) (f : MergeFn)
     (hf : CovFn D f) (X : List Node) (slice : List Elem) (right : List (Nat × INode)) (st : MSt)
-    (hs : ∀ e ∈ slice, plainOK D e.node.erase = true)
-    (hr : ∀ y ∈ right, plainOK D y.2.erase = true)
-    (hX : ∀ x ∈ X, plainOK D x = true ∧
+    (hs : ∀ e ∈ slice, wideOK D e.node.erase = true)
+    (hr : ∀ y ∈ right, wideOK D y.2.erase = true)
+    (hX : ∀ x ∈ X, wideOK D x = true ∧
       ((∃ e ∈ slice, covers x e.node.erase = true) ∨ (∃ y ∈ right, covers x y.2.erase = true))) :
-    (∀ e ∈ (mergeLoop fl f slice right [] st).1, plainOK D e.node.erase = true) ∧
+    (∀ e ∈ (mergeLoop fl f slice right [] st).1, wideOK D e.node.erase = true) ∧
     ∀ x ∈ X, ∃ e ∈ (mergeLoop fl f slice right [] st).1, covers x e.node.erase = true := by
   let Inv : List Elem → List (Nat × INode) → List Nat → MSt → Prop := fun sl rt _ _ =>
-    (∀ e ∈ sl, plainOK D e.node.erase = true) ∧ (∀ y ∈ rt, plainOK D y.2.erase = true) ∧
+    (∀ e ∈ sl, wideOK D e.node.erase = true) ∧ (∀ y ∈ rt, wideOK D y.2.erase = true) ∧
     ∀ x ∈ X, (∃ e ∈ sl, covers x e.node.erase = true) ∨ (∃ y ∈ rt, covers x y.2.erase = true)
   have h := mergeLoop_inv fl f Inv
     (by intro sl rt mg e j r s s' _ _ _ h; exact h)
@@ -257,8 +443,8 @@ theorem mergeLoop_covers {D : List Str} (hD : dateTrans D = true) (fl : MergeFla
     the merged list stays within the guard. -/
 theorem mergeNodeSlices_covers {D : List Str} (hD : dateTrans D = true) (fl : MergeFlags)
     (f : MergeFn) (hf : CovFn D f) (l r : List INode) (st : MSt)
-    (hl : ∀ x ∈ l, plainOK D x.erase = true) (hr : ∀ x ∈ r, plainOK D x.erase = true) :
-    (∀ n ∈ (mergeNodeSlices fl f l r st).1, plainOK D n.erase = true) ∧
+    (hl : ∀ x ∈ l, wideOK D x.erase = true) (hr : ∀ x ∈ r, wideOK D x.erase = true) :
+    (∀ n ∈ (mergeNodeSlices fl f l r st).1, wideOK D n.erase = true) ∧
     ∀ x ∈ l ++ r, ∃ n ∈ (mergeNodeSlices fl f l r st).1, covers x.erase n.erase = true := by
   have hce := copyLeft_erase fl (indexed l) st
   have hmem : ∀ x ∈ l, ∃ e ∈ (copyLeft fl (indexed l) st).1, e.node.erase = x.erase := by
@@ -329,35 +515,55 @@ theorem hdrOK_rule {D : List Str} {n : Node} (h : hdrOK D n = true) :
   simp only [hdrOK, Bool.and_eq_true, bne_iff_ne, ne_eq] at h
   exact ⟨h.1.1, h.1.2⟩
 
-/-- a node whose children were replaced by a list that represents the children of `x` and whose
-    header is Equal to `x` represents `x` -/
-theorem covers_setKids {D : List Str} {n : INode} {ks : List INode} {x : Node}
-    (hn : hdrOK D n.erase = true) (he : equalsShallow n.erase x = true)
+/-- a node of the result whose children were replaced by a list that represents its old children
+    and the children of `x`, and which was Equal to `x`, represents `x` -/
+theorem covers_setKids {D : List Str} (hD : dateTrans D = true) {n : INode} {ks : List INode}
+    {x : Node} (hn : wideOK D n.erase = true) (hn' : wideOK D (n.setKids ks).erase = true)
+    (hx : wideOK D x = true) (he : equalsShallow n.erase x = true)
+    (hkn : ∀ k ∈ n.erase.kids, ∃ k' ∈ ks, covers k k'.erase = true)
     (hk : ∀ k ∈ x.kids, ∃ k' ∈ ks, covers k k'.erase = true) :
     covers x (n.setKids ks).erase = true := by
-  rw [covers_iff]
-  refine ⟨?_, ?_⟩
-  · rw [equalsShallow_congr (sameHdr_setKids n ks) ⟨rfl, rfl, rfl⟩
-      (by rw [(sameHdr_setKids n ks).rule]; exact (hdrOK_rule hn).1)
-      (by rw [(sameHdr_setKids n ks).rule]; exact (hdrOK_rule hn).2)]
-    exact he
-  · intro k hk'
-    obtain ⟨k', hk'', hc⟩ := hk k hk'
+  have lift : ∀ {y : Node}, (∀ k ∈ y.kids, ∃ k' ∈ ks, covers k k'.erase = true) →
+      ∀ k ∈ y.kids, ∃ k' ∈ (n.setKids ks).erase.kids, covers k k' = true := by
+    intro y hy k hk'
+    obtain ⟨k', hk'', hc⟩ := hy k hk'
     refine ⟨k'.erase, ?_, hc⟩
     rw [INode.setKids_erase]
     exact List.mem_map.mpr ⟨k', hk'', rfl⟩
+  rw [covers_iff]
+  refine ⟨?_, lift hk⟩
+  have hrefl := refl_cover (sameHdr_setKids n ks) ((wideOK_iff D _).mp hn).1 (lift hkn)
+  exact trans_cover hD hn' hn hx hrefl he (lift hkn)
+
+/-- the guard survives `n.SetNodes(ks)` when `ks` is within the guard and represents the old
+    children -/
+theorem wideOK_setKids {D : List Str} {n : INode} {ks : List INode} (hn : wideOK D n.erase = true)
+    (hks : ∀ k ∈ ks, wideOK D k.erase = true)
+    (hkn : ∀ k ∈ n.erase.kids, ∃ k' ∈ ks, covers k k'.erase = true) :
+    wideOK D (n.setKids ks).erase = true := by
+  rw [wideOK_iff]
+  refine ⟨nodeOK_cover (sameHdr_setKids n ks) ((wideOK_iff D _).mp hn).1 ?_, ?_⟩
+  · intro k hk
+    obtain ⟨k', hk', hc⟩ := hkn k hk
+    refine ⟨k'.erase, ?_, hc⟩
+    rw [INode.setKids_erase]
+    exact List.mem_map.mpr ⟨k', hk', rfl⟩
+  · intro k hk
+    rw [INode.setKids_erase] at hk
+    obtain ⟨k', hk', rfl⟩ := List.mem_map.mp hk
+    exact hks k' hk'
 
 theorem foldRight_covers {D : List Str} (hD : dateTrans D = true) (fl : MergeFlags) (eqf : MergeFn)
     (hf : CovFn D eqf) (root : Nat) (rootTag : Str) (Lk : List Node) (kids cur : List INode)
-    (st : MSt) (hLk : ∀ x ∈ Lk, plainOK D x = true ∧ ∃ n ∈ cur, covers x n.erase = true)
-    (hcur : ∀ n ∈ cur, plainOK D n.erase = true) (hkids : ∀ c ∈ kids, plainOK D c.erase = true) :
-    (∀ n ∈ (foldRight fl eqf root rootTag cur kids st).1, plainOK D n.erase = true) ∧
+    (st : MSt) (hLk : ∀ x ∈ Lk, wideOK D x = true ∧ ∃ n ∈ cur, covers x n.erase = true)
+    (hcur : ∀ n ∈ cur, wideOK D n.erase = true) (hkids : ∀ c ∈ kids, wideOK D c.erase = true) :
+    (∀ n ∈ (foldRight fl eqf root rootTag cur kids st).1, wideOK D n.erase = true) ∧
     ∀ x ∈ Lk ++ kids.map INode.erase,
       ∃ n ∈ (foldRight fl eqf root rootTag cur kids st).1, covers x n.erase = true := by
   let Inv : List INode → List INode → MSt → Prop := fun c rest _ =>
-    (∀ n ∈ c, plainOK D n.erase = true) ∧ (∀ x ∈ rest, plainOK D x.erase = true) ∧
+    (∀ n ∈ c, wideOK D n.erase = true) ∧ (∀ x ∈ rest, wideOK D x.erase = true) ∧
     ∃ done, kids = done ++ rest ∧ ∀ x ∈ Lk ++ done.map INode.erase, ∃ n ∈ c, covers x n.erase = true
-  have hall : ∀ x ∈ Lk ++ kids.map INode.erase, plainOK D x = true := by
+  have hall : ∀ x ∈ Lk ++ kids.map INode.erase, wideOK D x = true := by
     intro x hx
     rcases List.mem_append.mp hx with hx | hx
     · exact (hLk x hx).1
@@ -368,31 +574,31 @@ theorem foldRight_covers {D : List Str} (hD : dateTrans D = true) (fl : MergeFla
       obtain ⟨h1, h2, done, hd, h3⟩ := h
       have hnok := h1 n (by simp)
       have hcok := h2 child (by simp)
-      have hnk : ∀ k ∈ n.kids, plainOK D k.erase = true := fun k hk =>
-        ((plainOK_iff D _).mp hnok).2 _ (by rw [INode.erase_kids]; exact List.mem_map.mpr ⟨k, hk, rfl⟩)
-      have hck : ∀ k ∈ child.kids, plainOK D k.erase = true := fun k hk =>
-        ((plainOK_iff D _).mp hcok).2 _ (by rw [INode.erase_kids]; exact List.mem_map.mpr ⟨k, hk, rfl⟩)
+      have hnk : ∀ k ∈ n.kids, wideOK D k.erase = true := fun k hk =>
+        ((wideOK_iff D _).mp hnok).2 _ (by rw [INode.erase_kids]; exact List.mem_map.mpr ⟨k, hk, rfl⟩)
+      have hck : ∀ k ∈ child.kids, wideOK D k.erase = true := fun k hk =>
+        ((wideOK_iff D _).mp hcok).2 _ (by rw [INode.erase_kids]; exact List.mem_map.mpr ⟨k, hk, rfl⟩)
       have hm := mergeNodeSlices_covers hD fl eqf hf child.kids n.kids s hck hnk
-      have hn'ok : plainOK D (n.setKids (mergeNodeSlices fl eqf child.kids n.kids s).1).erase = true := by
-        rw [plainOK_iff]
-        refine ⟨by rw [hdrOK_congr (sameHdr_setKids _ _)]; exact ((plainOK_iff D _).mp hnok).1, ?_⟩
+      have hkn : ∀ k ∈ n.erase.kids, ∃ k' ∈ (mergeNodeSlices fl eqf child.kids n.kids s).1,
+          covers k k'.erase = true := by
         intro k hk
-        rw [INode.setKids_erase] at hk
-        obtain ⟨k', hk', rfl⟩ := List.mem_map.mp hk
-        exact hm.1 k' hk'
+        rw [INode.erase_kids] at hk
+        obtain ⟨k0, hk0, rfl⟩ := List.mem_map.mp hk
+        exact hm.2 k0 (by simp [hk0])
+      have hkc : ∀ k ∈ child.erase.kids, ∃ k' ∈ (mergeNodeSlices fl eqf child.kids n.kids s).1,
+          covers k k'.erase = true := by
+        intro k hk
+        rw [INode.erase_kids] at hk
+        obtain ⟨k0, hk0, rfl⟩ := List.mem_map.mp hk
+        exact hm.2 k0 (by simp [hk0])
+      have hn'ok : wideOK D (n.setKids (mergeNodeSlices fl eqf child.kids n.kids s).1).erase = true :=
+        wideOK_setKids hnok hm.1 hkn
       have hcov_c : covers child.erase (n.setKids (mergeNodeSlices fl eqf child.kids n.kids s).1).erase = true :=
-        covers_setKids ((plainOK_iff D _).mp hnok).1 hE (by
-          intro k hk
-          rw [INode.erase_kids] at hk
-          obtain ⟨k0, hk0, rfl⟩ := List.mem_map.mp hk
-          exact hm.2 k0 (by simp [hk0]))
+        covers_setKids hD hnok hn'ok hcok hE hkn hkc
       have hcov_n : covers n.erase (n.setKids (mergeNodeSlices fl eqf child.kids n.kids s).1).erase = true :=
-        covers_setKids ((plainOK_iff D _).mp hnok).1
-          (equalsShallow_refl_hdr ((plainOK_iff D _).mp hnok).1) (by
-          intro k hk
-          rw [INode.erase_kids] at hk
-          obtain ⟨k0, hk0, rfl⟩ := List.mem_map.mp hk
-          exact hm.2 k0 (by simp [hk0]))
+        covers_setKids hD hnok hn'ok hnok
+          (refl_cover ⟨rfl, rfl, rfl⟩ ((wideOK_iff D _).mp hnok).1
+            (fun k hk => ⟨k, hk, covers_refl k (((wideOK_iff D _).mp hnok).2 k hk)⟩)) hkn hkn
       refine ⟨?_, fun x hx => h2 x (by simp [hx]), done ++ [child], by simp [hd], ?_⟩
       · intro n' hn'
         simp only [List.mem_append, List.mem_cons] at hn'
@@ -407,7 +613,7 @@ theorem foldRight_covers {D : List Str} (hD : dateTrans D = true) (fl : MergeFla
             ∃ y ∈ pre ++ n.setKids (mergeNodeSlices fl eqf child.kids n.kids s).1 :: post,
               covers x y.erase = true := by
           rintro ⟨y, hy, hc⟩
-          have hxok : plainOK D x = true := by
+          have hxok : wideOK D x = true := by
             rcases hx with hx | hx | rfl
             · exact (hLk x hx).1
             · obtain ⟨c, hc', rfl⟩ := List.mem_map.mp hx
@@ -455,11 +661,29 @@ theorem copyM_erase (n : INode) (s : MSt) : (copyM n s).1.erase = n.erase := by
 /-- what MergeNodes returns, value-wise: the left header over children that represent the
     children of both inputs -/
 def MergesTo (D : List Str) (l r m : Node) : Prop :=
-  plainOK D m = true ∧ sameHdr m l ∧ ∀ k ∈ l.kids ++ r.kids, ∃ k' ∈ m.kids, covers k k' = true
+  wideOK D m = true ∧ sameHdr m l ∧ ∀ k ∈ l.kids ++ r.kids, ∃ k' ∈ m.kids, covers k k' = true
 
-theorem eqMergeWith_cov {D : List Str} (mn : INode → INode → MSt → MergeOutcome)
-    (h : ∀ l r st m st', mn l r st = .ok m st' → plainOK D l.erase = true →
-      plainOK D r.erase = true → MergesTo D l.erase r.erase m.erase) :
+/-- the merged node represents the left input … -/
+theorem MergesTo.left {D : List Str} {l r m : Node} (h : MergesTo D l r m)
+    (hl : wideOK D l = true) : covers l m = true := by
+  rw [covers_iff]
+  exact ⟨refl_cover h.2.1 ((wideOK_iff D _).mp hl).1 (fun k hk => h.2.2 k (by simp [hk])),
+    fun k hk => h.2.2 k (by simp [hk])⟩
+
+/-- … and the right input when the two roots are Equal -/
+theorem MergesTo.right {D : List Str} (hD : dateTrans D = true) {l r m : Node}
+    (h : MergesTo D l r m) (hl : wideOK D l = true) (hr : wideOK D r = true)
+    (hE : equalsShallow l r = true) : covers r m = true := by
+  rw [covers_iff]
+  refine ⟨?_, fun k hk => h.2.2 k (by simp [hk])⟩
+  exact trans_cover hD h.1 hl hr
+    (refl_cover h.2.1 ((wideOK_iff D _).mp hl).1 (fun k hk => h.2.2 k (by simp [hk]))) hE
+    (fun k hk => h.2.2 k (by simp [hk]))
+
+theorem eqMergeWith_cov {D : List Str} (hD : dateTrans D = true)
+    (mn : INode → INode → MSt → MergeOutcome)
+    (h : ∀ l r st m st', mn l r st = .ok m st' → wideOK D l.erase = true →
+      wideOK D r.erase = true → MergesTo D l.erase r.erase m.erase) :
     CovFn D (eqMergeWith mn) := by
   intro a b s m s' hf ha hb
   unfold eqMergeWith at hf
@@ -470,19 +694,8 @@ theorem eqMergeWith_cov {D : List Str} (mn : INode → INode → MSt → MergeOu
       injection hf with h1 h2
       injection h1 with h1
       subst h1
-      obtain ⟨hok, hh, hk⟩ := h a b s m0 s0 hmn ha hb
-      have hm := (plainOK_iff D _).mp hok
-      have har := hdrOK_rule ((plainOK_iff D _).mp ha).1
-      have hmr : m0.erase.rule ≠ .resi ∧ m0.erase.rule ≠ .even := hdrOK_rule hm.1
-      refine ⟨hok, ?_, ?_⟩
-      · rw [covers_iff]
-        refine ⟨?_, fun k hk' => hk k (by simp [hk'])⟩
-        rw [equalsShallow_congr hh ⟨rfl, rfl, rfl⟩ hmr.1 hmr.2]
-        exact equalsShallow_refl_hdr ((plainOK_iff D _).mp ha).1
-      · rw [covers_iff]
-        refine ⟨?_, fun k hk' => hk k (by simp [hk'])⟩
-        rw [equalsShallow_congr hh ⟨rfl, rfl, rfl⟩ hmr.1 hmr.2]
-        exact hE
+      have hmt := h a b s m0 s0 hmn ha hb
+      exact ⟨hmt.1, hmt.left ha, hmt.right hD ha hb hE⟩
     · cases hf
     · cases hf
     · cases hf
@@ -490,7 +703,7 @@ theorem eqMergeWith_cov {D : List Str} (mn : INode → INode → MSt → MergeOu
 
 theorem mergeNodesF_covers {D : List Str} (hD : dateTrans D = true) (fl : MergeFlags) (fuel : Nat) :
     ∀ (l r : INode) (st : MSt) (m : INode) (st' : MSt), mergeNodesF fl fuel l r st = .ok m st' →
-      plainOK D l.erase = true → plainOK D r.erase = true → MergesTo D l.erase r.erase m.erase := by
+      wideOK D l.erase = true → wideOK D r.erase = true → MergesTo D l.erase r.erase m.erase := by
   induction fuel with
   | zero => intro l r st m st' h; simp [mergeNodesF] at h
   | succ fuel ih =>
@@ -501,11 +714,11 @@ theorem mergeNodesF_covers {D : List Str} (hD : dateTrans D = true) (fl : MergeF
     · injection h with h1 h2
       have hce := copyM_erase l st
       have hroot := copyTree_root st.next l
-      have hlk := (plainOK_iff D _).mp hl
-      have hrk := (plainOK_iff D _).mp hr
+      have hlk := (wideOK_iff D _).mp hl
+      have hrk := (wideOK_iff D _).mp hr
       have hck : (copyM l st).1.kids.map INode.erase = l.kids.map INode.erase := by
         rw [← INode.erase_kids, ← INode.erase_kids, hce]
-      have hf := foldRight_covers hD fl _ (eqMergeWith_cov _ ih) (copyM l st).1.id l.tag
+      have hf := foldRight_covers hD fl _ (eqMergeWith_cov hD _ ih) (copyM l st).1.id l.tag
         (l.kids.map INode.erase) r.kids (copyM l st).1.kids (copyM l st).2
         (by
           intro x hx
@@ -527,23 +740,27 @@ theorem mergeNodesF_covers {D : List Str} (hD : dateTrans D = true) (fl : MergeF
         rw [INode.erase_eq l]
         simp only [INode.erase]
         exact ⟨hroot.2.1, hroot.2.2.1, hroot.2.2.2⟩
-      refine ⟨?_, hmh, ?_⟩
-      · rw [plainOK_iff]
-        refine ⟨by rw [hdrOK_congr hmh]; exact hlk.1, ?_⟩
+      have hkc : ∀ k ∈ l.erase.kids ++ r.erase.kids, ∃ k' ∈ (INode.mk (copyM l st).1.id
+          (copyM l st).1.tag (copyM l st).1.value (copyM l st).1.ptr
+          (foldRight fl (eqMergeWith (mergeNodesF fl fuel)) (copyM l st).1.id l.tag
+            (copyM l st).1.kids r.kids (copyM l st).2).1).erase.kids, covers k k' = true := by
         intro k hk
-        simp only [INode.erase, Node.kids, eraseList_eq_map] at hk
-        obtain ⟨n, hn, rfl⟩ := List.mem_map.mp hk
-        exact hf.1 n hn
-      · intro k hk
         rw [INode.erase_kids, INode.erase_kids] at hk
         obtain ⟨n, hn, hc⟩ := hf.2 k hk
         refine ⟨n.erase, ?_, hc⟩
         simp only [INode.erase, Node.kids, eraseList_eq_map]
         exact List.mem_map.mpr ⟨n, hn, rfl⟩
+      refine ⟨?_, hmh, hkc⟩
+      rw [wideOK_iff]
+      refine ⟨nodeOK_cover hmh hlk.1 (fun k hk => hkc k (by simp [hk])), ?_⟩
+      intro k hk
+      simp only [INode.erase, Node.kids, eraseList_eq_map] at hk
+      obtain ⟨n, hn, rfl⟩ := List.mem_map.mp hk
+      exact hf.1 n hn
 
 theorem eqMergeF_cov {D : List Str} (hD : dateTrans D = true) (fl : MergeFlags) (fuel : Nat) :
     CovFn D (eqMergeF fl fuel) :=
-  eqMergeWith_cov _ (mergeNodesF_covers hD fl fuel)
+  eqMergeWith_cov hD _ (mergeNodesF_covers hD fl fuel)
 
 theorem neverMerge_cov (D : List Str) : CovFn D neverMerge := by
   intro a b s m s' h; simp [neverMerge] at h
